@@ -152,6 +152,9 @@ fn gen_prog(rng: &mut TestRng, i: usize, which: Which) -> ChainProg {
             wrappers: match which {
                 Which::C02 => 0.3,
                 Which::C10 | Which::C11 => 0.25,
+                // wrappers are C02's subject: C01's chains are flat, so that a defect in the wrapper
+                // machinery is not reported against C01
+                Which::C01 => 0.0,
                 _ => 0.12,
             },
             shapes: true,
